@@ -56,6 +56,9 @@ pub struct SimSpec {
     /// hex of the intermediate status packet (None: `04 ff 02 17 00`)
     #[serde(default)]
     pub intermediate_body: Option<String>,
+    /// see Sim::status_script (None: "R")
+    #[serde(default)]
+    pub status_script: Option<String>,
 }
 
 #[derive(Serialize, Deserialize, Clone, Debug, PartialEq)]
@@ -120,6 +123,9 @@ pub fn run_scenario(sc: &Scenario) -> Trace {
         sim.dangling = sc.sim.dangling;
     }
     sim.intermediate_body = sc.sim.intermediate_body.as_ref().map(|h| crate::engine::unhex(h));
+    if let Some(s) = &sc.sim.status_script {
+        sim.status_script = s.clone();
+    }
     sim.card_replies = sc.sim.card_replies.iter().map(|h| crate::engine::unhex(h)).collect();
     sim.reversal_status = sc.sim.reversal_status.iter().map(|h| crate::engine::unhex(h)).collect();
     sim.chatter = sc.sim.chatter.iter().map(|h| crate::engine::unhex(h)).collect();
